@@ -19,6 +19,7 @@ func runC16(c *core.Ctx) core.Meta {
 	c.Load(atPkg)
 	c.BuildSSA()
 	p := NewPkgInfo(c, atPkg)
+	checkPayloadNilPreserved(c, p)
 	checkGuardedFieldUsed(c, "R16.16", "Lookups sent to the memory providers are never answered: no access behind them is forwarded or answered.", 2, p)
 	checkLog2Units(c, "R16.15", 3, "The page and the offset inside it must be cut with the same page size.", p)
 	checkBuilderPassThrough(c, "R16.14", "The translator cuts the virtual page and the offset inside it with the page size it holds: a Build that leaves one of them at a default makes the forwarded physical address something other than page base + page offset.", p, map[string]string{"Comp.log2PageSize": "log2PageSize", "Comp.deviceID": "deviceID", "Comp.numReqPerCycle": "numReqPerCycle"})
